@@ -622,6 +622,13 @@ func (c *specCtx) call(x *SExpr) *SVal {
 	case "held":
 		key, _ := c.fr.lockKeyOf(c.st, x.Args[0], c.bind, c.pkgPath)
 		m, ok := c.st.locks[key]
+		if strings.HasPrefix(key, "*#") {
+			for k, mm := range c.st.locks {
+				if strings.HasSuffix(k, key[1:]) && mm == "W" {
+					m, ok = mm, true
+				}
+			}
+		}
 		return &SVal{T: BoolLit(ok && m == "W"), Ty: boolT}
 	case "len":
 		v := c.value(c.eval(x.Args[0]))
